@@ -474,7 +474,7 @@ class Interp:
         if isinstance(op, ast.Mult):
             for r, d, dn in ((a, b, e.right), (b, a, e.left)):
                 if r.israd and d.isvec:
-                    self.obligation(e, d.unorm, "radius-times-direction", au.src(dn))
+                    self.obligation(e, d.unorm or self.is_unit(d.comps), "radius-times-direction", au.src(dn))
             if a.isvec and b.isvec:
                 return None
             if a.isvec or b.isvec:
@@ -541,7 +541,7 @@ class Interp:
         if tail in ("normalized", "normalize"):
             return SV(isvec=True, unorm=True, vid=self.new_vid())
         if tail in ROT and args:
-            return SV(isvec=True, unorm=bool(args[0] is not None and args[0].unorm), vid=self.new_vid())
+            return SV(isvec=True, unorm=bool(args[0] is not None and (args[0].unorm or self.is_unit(args[0].comps))), vid=self.new_vid())
         if tail == "norm":
             return SV(normof=au.src(first_node) if first_node is not None else None)
         if tail in ("sin", "cos") and first is not None and first.sx is not None and len(c.args) == 1:
